@@ -69,3 +69,11 @@ package miner
 //@   assert-at call assembleFullBlock block-from-both-templates-and-the-winning-proof: arg2 == lastresult("getBestProof")
 //@   assert-at call SignHash header-hash-signed-with-the-winning-space: arg1 == lastresult("getBestProof").proof.SpaceID && arg2 == lastresult("PoCHash")
 //@   assert-at return#-1 signed-block-returned: result0 == lastresult("assembleFullBlock") && unbox("*pocec.Signature", result0.Header.Signature) == lastresult("SignHash") && result2 == nil
+
+// ---- C08: a competing tip makes the round stale when it has more capacity, or equal capacity and an earlier
+// timestamp, or equal capacity, equal timestamp and a higher quality
+//@ func runStaleMonitor$1
+//@   attr modular
+//@   assert-at call Cmp#1 capacity-compared-first: arg0 == newNode.CapSum && arg1 == node.CapSum
+//@   assert-at call Before earlier-timestamp-wins-at-equal-capacity: lastresult("Cmp#1") == 0
+//@   assert-at call Cmp#2 quality-breaks-the-tie-at-equal-capacity-and-time: arg0 == newNode.Quality && arg1 == node.Quality && lastresult("Cmp#1") == 0 && lastresult("Equal")
